@@ -126,30 +126,41 @@ func isPattern(b []byte) bool {
 	return bytes.Equal(b, patBytes(len(b), b[0]))
 }
 
-const digM = (1 << 48) - 1
-
-func digest(b []byte) (uint64, uint64) {
-	var h1, h2 uint64
+func digest(b []byte) uint64 {
+	var s1, s2 uint64
 	for _, x := range b {
-		h1 = (h1*257 + uint64(x) + 1) & digM
-		h2 = (h2*263 + uint64(x) + 1) & digM
+		s1 = (s1 + uint64(x) + 1) & 0xffffffff
+		s2 = (s2 + s1) & 0xffffffff
 	}
-	return h1, h2
+	return s2<<32 | s1
 }
 
-// argStr: inputs travel as hex, or as a pattern reference when they are one
+// argStr: inputs travel as hex, with embedded pattern runs ("!LLLLLLLLSS") where the bytes follow patBytes
 func argStr(b []byte) string {
-	if isPattern(b) {
-		return fmt.Sprintf("!%08x%02x", len(b), b[0])
+	var sb strings.Builder
+	i := 0
+	for i < len(b) {
+		// how far does a pattern starting here (seed b[i]) extend?
+		seed := int(b[i])
+		j := 0
+		for i+j < len(b) && int(b[i+j]) == (seed+31*j+j/256)%256 {
+			j++
+		}
+		if j >= 128 {
+			fmt.Fprintf(&sb, "!%08x%02x", j, seed)
+			i += j
+			continue
+		}
+		sb.WriteString(hex.EncodeToString(b[i : i+1]))
+		i++
 	}
-	return hx(b)
+	return sb.String()
 }
 
 // obsStr: large observations travel as length + digest
 func obsStr(b []byte) string {
 	if len(b) > 1024 {
-		h1, h2 := digest(b)
-		return fmt.Sprintf("#%08x%012x%012x", len(b), h1, h2)
+		return fmt.Sprintf("#%08x%016x", len(b), digest(b))
 	}
 	return hx(b)
 }
